@@ -1,0 +1,34 @@
+//go:build verif
+// +build verif
+
+package tmutex
+
+import "sync/atomic"
+
+// Verification hooks (build tag verif). verifYield is called immediately
+// before each atomic/channel operation of the mutex; a conformance harness
+// installs a gate scheduler with VerifSetHook before any goroutine uses a
+// Mutex. Without a hook installed it is a nil check.
+var verifHook func(point int)
+
+func verifYield(point int) {
+	if h := verifHook; h != nil {
+		h(point)
+	}
+}
+
+// VerifSetHook installs (or, with nil, removes) the hook.
+func VerifSetHook(h func(point int)) { verifHook = h }
+
+// VerifState returns the state word and the number of wake-up tokens.
+func VerifState(m *Mutex) (int32, int) { return atomic.LoadInt32(&m.v), len(m.ch) }
+
+// VerifForce frees the mutex and posts a token so that abandoned harness
+// goroutines can run to completion.
+func VerifForce(m *Mutex) {
+	atomic.StoreInt32(&m.v, 1)
+	select {
+	case m.ch <- struct{}{}:
+	default:
+	}
+}
